@@ -242,7 +242,7 @@ package federation
 // that salts for that same id (never with the caller's tokens as they are, and
 // never with a provider made for another cluster), and is stored under id;
 // the local cluster and non-proxy remotes get no remote connection.
-//@ func New property C19,C20 safety -nil
+//@ func New property C19,C20,C18 safety -nil
 //@   ghost pid string = ""
 //@   calls saltedTokenProvider#1: requires $1 == id && remote.Proxy && id != cluster.ClusterID
 //@   calls saltedTokenProvider#1: set pid = $1
